@@ -26,12 +26,12 @@ func TestMain(m *testing.M) { hx.Main(m, "C07") }
 
 // outcome of one entry point on one input
 type outcome struct {
-	name   string
-	ok     bool
-	tree   string // "" when the entry point returns no tree
+	name    string
+	ok      bool
+	tree    string // "" when the entry point returns no tree
 	hasTree bool
-	code   string
-	msg    string
+	code    string
+	msg     string
 }
 
 func codeOf(err error) string {
